@@ -6,6 +6,7 @@ pub mod c04;
 pub mod c10;
 pub mod c11;
 pub mod c12;
+pub mod c15;
 pub mod c16;
 pub mod c19;
 pub mod smoke;
@@ -21,6 +22,7 @@ pub fn run(a: &Args) -> Report {
         "c11" => c11::run(a),
         "c12" => c12::run(a),
         "c16" => c16::run(a),
+        "c15" => c15::run(a),
         other => {
             let mut r = Report::new(other);
             r.inconclusive(&format!("unknown property {other}"));
